@@ -228,14 +228,40 @@ pub fn stub_mark(vm: &mut Vm<Host>, v: Value) -> R {
     leave(vm, Ok(Value::Nil))
 }
 
+/// builds a nested value through the host API `Vm::insert_value` (OwnedValue -> runtime value)
+pub fn stub_mk_owned(vm: &mut Vm<Host>, v: Value) -> R {
+    match enter(vm, "mk_owned", &[v]) {
+        HostDecision::Fail => return leave(vm, Err(injected())),
+        HostDecision::ReturnNil => return leave(vm, Ok(Value::Nil)),
+        HostDecision::Default => {}
+    }
+    let n = match v {
+        Value::Integer(i) => i.rem_euclid(5) as usize,
+        _ => 2,
+    };
+    let inner = OwnedValue::Table(
+        (0..n + 1)
+            .map(|i| OwnedEntry { key: OwnedValue::String(format!("inner{i}")), value: OwnedValue::String(format!("payload {i}")) })
+            .collect(),
+    );
+    let owned = OwnedValue::Table(vec![
+        OwnedEntry { key: OwnedValue::String("name".into()), value: OwnedValue::String("owned value".into()) },
+        OwnedEntry { key: OwnedValue::Integer(1), value: inner.clone() },
+        OwnedEntry { key: OwnedValue::String("again".into()), value: inner },
+        OwnedEntry { key: OwnedValue::Real(2.5), value: OwnedValue::Nil },
+    ]);
+    let r = vm.insert_value(&owned);
+    leave(vm, r)
+}
+
 /// three parameters, returns the first
 pub fn stub_t3(vm: &mut Vm<Host>, a: Value, b: Value, c: Value) -> R {
     let _ = enter(vm, "t3", &[a, b, c]);
     leave(vm, Ok(a))
 }
 
-pub const STUB_NAMES: [&str; 10] = [
-    "log", "id", "mk_table", "mk_str", "call0", "call1", "call2", "fail", "mark", "t3",
+pub const STUB_NAMES: [&str; 11] = [
+    "log", "id", "mk_table", "mk_str", "call0", "call1", "call2", "fail", "mark", "t3", "mk_owned",
 ];
 
 pub fn register_stubs(vm: &mut Vm<Host>) {
@@ -249,6 +275,7 @@ pub fn register_stubs(vm: &mut Vm<Host>) {
     vm.register_native_function("fail", into_f1(stub_fail)).unwrap();
     vm.register_native_function("mark", into_f1(stub_mark)).unwrap();
     vm.register_native_function("t3", into_f3(stub_t3)).unwrap();
+    vm.register_native_function("mk_owned", into_f1(stub_mk_owned)).unwrap();
 }
 
 pub fn error_kind(e: &ExecutionErrorPayload) -> String {
